@@ -838,6 +838,26 @@ func init() {
 				m.violate(violation{"C04", "replay", what, map[string]string{"prog": prog.String(), "seed": fmt.Sprint(seed), "d2shape": fmt.Sprint(d2), "signal_in_custom": fmt.Sprint(lastSignalInCustom)}})
 			}
 		}
+		// a value handed out belongs to the caller: changing it in place must not change what the generator produces
+		// from the same bits afterwards (all-zero words give the "smallest" values: identity permutations, …)
+		for k := 0; k < c04AliasGens; k++ {
+			for i := 0; i < 12*scale; i++ {
+				ws := r.words(24)
+				switch i % 4 {
+				case 0:
+					ws = make([]uint64, 24)
+				case 1:
+					for j := range ws {
+						ws[j] &= 3
+					}
+				}
+				m.tag("alias")
+				m.eval(fmt.Sprintf("alias%d|%s", k, joinU64(ws)), true)
+				if what := c04Alias(k, ws); what != "" {
+					m.violate(violation{"C04", "alias", what, map[string]string{"gen": fmt.Sprint(k), "words": joinU64(ws)}})
+				}
+			}
+		}
 		// Example(seed) is a function of the seed; history independence: interleave other work
 		g := rapid.SliceOfNDistinct(rapid.IntRange(0, 9), 0, 6, rapid.ID[int])
 		for i := 0; i < 50*scale; i++ {
@@ -852,11 +872,104 @@ func init() {
 			}
 		}
 	}
+	replayers["alias"] = func(v violation, tmp string) (bool, string) {
+		k, _ := strconv.Atoi(v.Params["gen"])
+		what := c04Alias(k, parseWordsGo(v.Params["words"]))
+		return what != "", what
+	}
 	replayers["replay"] = func(v violation, tmp string) (bool, string) {
 		seed, _ := strconv.ParseUint(v.Params["seed"], 10, 64)
 		what, _ := checkReplay(mustSX(v.Params["prog"]), seed)
 		return what != "", what
 	}
+}
+
+// generators of reference values (slices, maps, pointers), kept across calls like package-level generators
+var (
+	c04PermSrc = []int{1, 2, 3, 4, 5}
+	c04Perm    = rapid.Permutation(c04PermSrc)
+	c04Slice   = rapid.SliceOfN(rapid.IntRange(0, 9), 0, 6)
+	c04Dist    = rapid.SliceOfNDistinct(rapid.IntRange(0, 9), 0, 6, rapid.ID[int])
+	c04Map     = rapid.MapOfN(rapid.IntRange(0, 9), rapid.IntRange(0, 9), 0, 5)
+	c04Bytes   = rapid.SliceOfBytesMatching(`[a-c]{0,6}`)
+	c04Ptr     = rapid.Ptr(rapid.IntRange(0, 9), false)
+	c04Just    = rapid.Permutation([]string{"x", "y", "z"})
+)
+
+const c04AliasGens = 7
+
+// draw, remember, scribble over the value, draw again from the same bits: "" or what differs
+func c04Alias(k int, ws []uint64) string {
+	draw := func() (v any, err string) {
+		defer func() {
+			if p := recover(); p != nil {
+				err = fmt.Sprint(p)
+			}
+		}()
+		t := rapid.VerifNewT(newRecTB("alias"), rapid.VerifBufStream(ws, false), false)
+		switch k {
+		case 0:
+			return rapid.VerifValue(c04Perm, t), ""
+		case 1:
+			return rapid.VerifValue(c04Slice, t), ""
+		case 2:
+			return rapid.VerifValue(c04Dist, t), ""
+		case 3:
+			return rapid.VerifValue(c04Map, t), ""
+		case 4:
+			return rapid.VerifValue(c04Bytes, t), ""
+		case 5:
+			return rapid.VerifValue(c04Ptr, t), ""
+		default:
+			return rapid.VerifValue(c04Just, t), ""
+		}
+	}
+	show := func(v any) string {
+		if p, ok := v.(*int); ok && p != nil {
+			return fmt.Sprintf("&%d", *p)
+		}
+		return fmt.Sprintf("%#v", v)
+	}
+	v1, e1 := draw()
+	if e1 != "" {
+		return "" // invalid data on these words: nothing to compare
+	}
+	before := show(v1)
+	switch x := v1.(type) {
+	case []int:
+		for i := range x {
+			x[i] = -77
+		}
+		sort.Ints(x)
+	case []string:
+		for i := range x {
+			x[i] = "scribble"
+		}
+	case map[int]int:
+		for key := range x {
+			x[key] = -77
+		}
+		x[1234] = 1
+	case []byte:
+		for i := range x {
+			x[i] = '!'
+		}
+	case *int:
+		if x != nil {
+			*x = -77
+		}
+	}
+	v2, e2 := draw()
+	if e2 != "" {
+		return fmt.Sprintf("generator %d: the same words gave %s, and after the caller changed that value in place: %s", k, before, e2)
+	}
+	if after := show(v2); after != before {
+		return fmt.Sprintf("generator %d: the same words gave %s, and after the caller changed that value in place %s", k, before, after)
+	}
+	if k == 0 && fmt.Sprint(c04PermSrc) != "[1 2 3 4 5]" {
+		return fmt.Sprintf("Permutation: the slice the generator was made from was changed to %v", c04PermSrc)
+	}
+	return ""
 }
 
 // ---------------------------------------------------------------- C05: same site, only smaller
@@ -1074,6 +1187,8 @@ func init() {
 			fl := baseFlags()
 			fl.Checks = n
 			fl.Seed = r.u64() | 1
+			// the time reserved for minimization is no reason to run fewer test cases (48h: more than the time to the deadline)
+			fl.ShrinkTime = []time.Duration{30 * time.Second, 0, 48 * time.Hour, time.Hour}[r.intn(4)]
 			run := runCheckTB(mustSX(src), fl, "c09", nil)
 			kind, v, rest := verdictMsg(run.verdict)
 			valid, invalid := 0, 0
@@ -1397,6 +1512,25 @@ func init() {
 						p["prog"], p["files"] = src, strings.Join(kinds, ",")
 						m.violate(violation{"C17", "unusable", fmt.Sprintf("an unusable fail file (%s) given with -rapid.failfile next to a usable one: verdict %s, with the usable file alone: %s (crash: %v)",
 							kinds[0], explicit.verdict, base.verdict, explicit.escaped), p})
+					}
+					// the same with the unusable explicit file somewhere else: an absolute path, a file that does not exist,
+					// another spelling of a path into the directory — the usable file of the directory must still be replayed
+					garbage := filepath.Join(tmp, "c17-elsewhere.fail")
+					_ = os.WriteFile(garbage, []byte("this is not a fail file\n"), 0o644)
+					for _, ex := range []string{garbage, "/nonexistent-dir/x.fail", "./" + filepath.Join("testdata", "rapid", name, name+"-20250101000000-9.fail"),
+						filepath.Join("testdata", "rapid", name, name+"-20280101000000-9.fail")} {
+						fle2 := fl
+						fle2.Failfile = ex
+						var elsewhere *tbRun
+						inDir(only, func() { elsewhere = runCheckTB(prog, fle2, name, nil) })
+						m.tag("explicit-unusable-elsewhere")
+						m.eval("explicit-elsewhere"+ex+src+fmt.Sprint(fl.Seed), true)
+						if elsewhere.escaped != nil || elsewhere.verdict != base.verdict {
+							p := flagsStr(fle2)
+							p["prog"], p["files"], p["explicit"] = src, "usable", ex
+							m.violate(violation{"C17", "unusable", fmt.Sprintf("an unusable fail file given with -rapid.failfile=%s hides the usable fail file of the test: verdict %s, without the flag: %s (crash: %v)",
+								ex, elsewhere.verdict, base.verdict, elsewhere.escaped), p})
+						}
 					}
 					os.RemoveAll(only)
 				}
